@@ -18,7 +18,7 @@ from ..errors import InvalidExchangeKeyError
 from ..rfc7517.models import CurveKey
 from ..rfc7517.pem import CryptographyBinding
 from ..rfc7517.types import KeyParameters
-from ..util import base64_to_int, int_to_base64
+from ..util import base64_to_int, urlsafe_b64encode
 from ..registry import KeyParameter
 
 __all__ = ['ECKey']
@@ -29,6 +29,13 @@ ECDictKey = t.TypedDict("ECDictKey", {
     "y": str,
     "d": str,  # optional
 }, total=False)
+
+
+def _encode_fixed(num: int, curve: EllipticCurve) -> str:
+    # RFC7518 section 6.2.1.2: the octet string MUST be the full size of a coordinate
+    # (and of the private key, section 6.2.2.1) for the curve, including leading zeros
+    length = (curve.key_size + 7) // 8
+    return urlsafe_b64encode(num.to_bytes(length, "big")).decode("ascii")
 
 
 class ECBinding(CryptographyBinding):
@@ -71,9 +78,9 @@ class ECBinding(CryptographyBinding):
         numbers = key.private_numbers()
         return {
             "crv": cls._curves_dss[key.curve.name],
-            "x": int_to_base64(numbers.public_numbers.x),
-            "y": int_to_base64(numbers.public_numbers.y),
-            "d": int_to_base64(numbers.private_value),
+            "x": _encode_fixed(numbers.public_numbers.x, key.curve),
+            "y": _encode_fixed(numbers.public_numbers.y, key.curve),
+            "d": _encode_fixed(numbers.private_value, key.curve),
         }
 
     @classmethod
@@ -91,8 +98,8 @@ class ECBinding(CryptographyBinding):
         numbers = key.public_numbers()
         return {
             "crv": cls._curves_dss[numbers.curve.name],
-            "x": int_to_base64(numbers.x),
-            "y": int_to_base64(numbers.y),
+            "x": _encode_fixed(numbers.x, numbers.curve),
+            "y": _encode_fixed(numbers.y, numbers.curve),
         }
 
 
